@@ -78,6 +78,11 @@ theorem C09_decoder_ignores_insignificant_content (n : Node) :
     decodeQuery (Spec.XmlNoise.clean Lemmas.CarddavNoise.pc n) = decodeQuery n :=
   Lemmas.CarddavNoise.decodeQuery_clean n
 
+/-- the same for multiget documents -/
+theorem C09_multiget_decoder_ignores_insignificant_content (unescape : String → Option String) (n : Node) :
+    decodeMultiGet unescape (Spec.XmlNoise.clean Lemmas.CarddavNoise.pc n) = decodeMultiGet unescape n :=
+  Lemmas.CarddavNoise.decodeMultiGet_clean unescape n
+
 /-- …hence every document that is RFC-conformant once that content is set aside (pretty-printed, commented) reaches the
     backend as the query it denotes -/
 theorem C09_rfc_document_reaches_backend_lexical (n : Node) (q : Query)
